@@ -12,7 +12,9 @@ import impl
 from core import Scratch, cbool, clist, cstr
 
 FAIL_RE = re.compile(r"^(.*?):(\d+):(\d+): ([A-Z]+\d+): (.*)$")
-SELECTIONS = {"default": ([], []), "minus": (["md041", "md013", "md047"], []), "plus": ([], ["md002", "md006"]), "both": (["md009"], ["md002"])}
+SELECTIONS = {"default": ([], []), "minus": (["md041", "md013", "md047"], []), "plus": ([], ["md002", "md006"]), "both": (["md009"], ["md002"]),
+              # the same rule named on both sides (disable wins on the command line), by one identifier and by two
+              "same": (["md047", "md009"], ["md047", "md002"]), "same-alias": (["md009", "first-line-heading"], ["no-trailing-spaces", "md041", "md002"])}
 DIAG = [[], ["--stack-trace"], ["--log-level", "DEBUG"], ["--log-level", "INFO"], ["--log-level", "ERROR"], ["--log-level", "CRITICAL"],
         ["--stack-trace", "--log-level", "DEBUG"], ["--log-file", "log.txt", "--log-level", "DEBUG"]]
 
@@ -172,7 +174,7 @@ def run(ctx):
     docs = base + gen.sample(corpus, 100 if ctx.tier == "quick" else 1500, ctx.seed)
     docs += [d.replace("\n", "\r\n") for d in gen.sample(corpus, 60 if ctx.tier == "quick" else 600, ctx.seed + 1)]
     docs = [d for d in dict.fromkeys(docs) if d.strip()]
-    ecases = [(d, sel) for d in docs for sel in (SELECTIONS if ctx.tier == "thorough" else ["default", ["minus", "plus", "both"][(len(d) + ctx.seed) % 3]])]
+    ecases = [(d, sel) for d in docs for sel in (SELECTIONS if ctx.tier == "thorough" else ["default", ["minus", "plus", "both", "same", "same-alias"][(len(d) + ctx.seed) % 5]])]
     eres = impl.pmap(_entry, ecases, chunksize=8)
     for (d, sel), (res, fcli, fstr, fpath) in zip(ecases, eres):
         ctx.count(1, "entry/" + sel)
@@ -211,7 +213,7 @@ def run(ctx):
             ctx.violation("entry", {"doc": d, "entry": "scan-stdin under LC_ALL=C"}, f"scan gives {a}, scan-stdin gives {b} ({err!r})", group="entry-locale")
     ctx.trusted += [
         "correspondence: Model/IO.v lines_from_file / mem_lines / final-newline flag (vm_compute) vs FileSourceProvider / InMemorySourceProvider on every string over {a, LF, CR} up to the stated length (exhaustive)",
-        "entry-point differential: CLI scan of a file, CLI scan-stdin (bytes through a universal-newline text wrapper, and real pipes in a child process under LC_ALL=C), API scan_path, API scan_string; CLI fix vs fix_string vs fix_path; four rule selections; eight diagnostic option sets",
+        "entry-point differential: CLI scan of a file, CLI scan-stdin (bytes through a universal-newline text wrapper, and real pipes in a child process under LC_ALL=C), API scan_path, API scan_string; CLI fix vs fix_string vs fix_path; six rule selections (two of them naming a rule on both the disable and the enable side); eight diagnostic option sets",
     ]
     return ctx.finish(
         level="proof",
